@@ -376,13 +376,32 @@ def regenerate_all(skip=()):
         from checks import lockcommon
         lockcommon.regenerate_lock()
 
-    for name, fn in (("harr", harr), ("tables", tables_), ("vec", vec), ("conf", conf), ("md5", md5), ("tree", tree), ("lock", lock)):
+    def shapes():
+        from translator import shapes as sh
+        put("Shapes.lean", sh.render(sh.extract(REPO)))
+
+    for name, fn in (("harr", harr), ("tables", tables_), ("vec", vec), ("conf", conf), ("md5", md5), ("tree", tree), ("lock", lock), ("shapes", shapes)):
         if name in skip:
             continue
         try:
             fn()
         except (SystemExit, Exception) as e:
             log("  (translator %s cannot read the current source: %s - its check reports this)" % (name, str(e)[:120]))
+
+
+# shape obligations (lean/QlibcModel/Shapes/*.lean over Generated/Shapes.lean) imported by each Props module
+SHAPES_OF = {"C01": ["Tree"], "C02": ["Tree"], "C03": ["Tree"], "C04": ["Tree"], "C05": ["Hashtbl"], "C06": ["Harr"], "C07": ["Harr"],
+             "C08": ["Listtbl", "Encode"], "C09": ["Seq"], "C10": ["Seq"], "C11": ["Tree", "Hashtbl", "Listtbl", "Seq", "Harr"],
+             "C12": ["Tree", "Hashtbl", "Listtbl", "Seq", "Harr"], "C13": ["Tree", "Hashtbl", "Listtbl", "Seq"],
+             "C15": ["Tree", "Hashtbl", "Listtbl", "Seq", "Harr"], "C16": ["Encode"], "C17": ["Encode", "Conf"], "C18": ["Hash"],
+             "C19": ["Str"], "C20": ["Conf"]}
+
+
+def shape_theorems(prop):
+    out = []
+    for fam in SHAPES_OF.get(prop, []):
+        out += theorems_of("QlibcModel.Shapes." + fam)
+    return out
 
 
 class Stream:
@@ -483,6 +502,7 @@ class Check:
         proof["built"], proof["build_s"] = ok, round(dt, 1)
         if not ok:
             proof["errors"] += errs[:10] or [out[-1500:]]
+        self.also_audit = tuple(self.also_audit) + tuple(t for t in shape_theorems(prop) if t not in self.also_audit)
         thms, axioms = theorems_of("QlibcModel.Props." + prop) + list(self.also_audit), {}
         if ok:
             aok, axioms, bad = audit(prop, self.also_audit)
@@ -527,7 +547,11 @@ class Check:
         if len([v for v in self.violations if v[0] == "corr"]) >= self.max_corr:
             have_driver = False
         text = "\n".join(st.ops) + "\n"
-        hbin = self.stream_bin(st)
+        try:
+            hbin = self.stream_bin(st)
+        except BuildError as e:
+            self.violation("build", "build-failure", str(e)[:2000], {"error": str(e)[:4000], "stream": st.name})
+            return
         module = None if st.nomodel else (st.module or self.module)
         raw_judge = st.oracle or self.judge_history
 
